@@ -103,7 +103,8 @@ type Config struct {
 	StrKey bool   `json:"str_key,omitempty"`
 	Shards uint64 `json:"shards"`
 	NKeys  int    `json:"nkeys"`
-	Stride int    `json:"stride"` // key i is the integer i*Stride (Stride == Shards makes every key collide under modulo routing)
+	Stride int    `json:"stride"` // key i is the integer Base + i*Stride (Stride == Shards makes every key collide under modulo routing)
+	Base   int    `json:"base,omitempty"`
 }
 
 func (c Config) valid() bool {
@@ -112,20 +113,20 @@ func (c Config) valid() bool {
 	default:
 		return false
 	}
-	return c.Shards >= 1 && c.Shards <= 100000 && c.NKeys >= 1 && c.NKeys <= 64 && c.Stride >= 1 && c.Stride <= 1000
+	return c.Shards >= 1 && c.Shards <= 100000 && c.NKeys >= 1 && c.NKeys <= 64 && c.Stride >= 1 && c.Stride <= 1000 && c.Base >= 0 && c.Base <= 1<<20
 }
 
 func (c Config) build() locker {
 	opt := remap.WithPrime(c.Shards)
-	iconv := func(k int) int { return k * c.Stride }
-	sconv := func(k int) string { return fmt.Sprintf("k%d", k*c.Stride) }
+	iconv := func(k int) int { return c.Base + k*c.Stride }
+	sconv := func(k int) string { return fmt.Sprintf("k%d", c.Base+k*c.Stride) }
 	switch c.Type {
 	case "KeyLocker":
-		return &strideAny{anyLocker{l: keylock.NewKeyLocker(), str: c.StrKey}, c.Stride}
+		return &strideAny{anyLocker{l: keylock.NewKeyLocker(), str: c.StrKey}, c.Stride, c.Base}
 	case "KeyLockerGrp":
-		return &strideAny{anyLocker{l: keylock.NewKeyLockeGrp(opt), str: c.StrKey}, c.Stride}
+		return &strideAny{anyLocker{l: keylock.NewKeyLockeGrp(opt), str: c.StrKey}, c.Stride, c.Base}
 	case "KeyLockerGrpX":
-		return &strideAny{anyLocker{l: keylock.NewXHashKeyLockeGrp(opt), str: c.StrKey}, c.Stride}
+		return &strideAny{anyLocker{l: keylock.NewXHashKeyLockeGrp(opt), str: c.StrKey}, c.Stride, c.Base}
 	case "TKeyLocker":
 		if c.StrKey {
 			return &tLocker[string]{l: keylock.NewTKeyLocker[string](), conv: sconv}
@@ -146,21 +147,21 @@ func (c Config) build() locker {
 
 type strideAny struct {
 	anyLocker
-	stride int
+	stride, base int
 }
 
 func (s *strideAny) lock(keys []int, write, multi bool) {
-	s.anyLocker.lock([]int{keys[0] * s.stride}, write, multi)
+	s.anyLocker.lock([]int{s.base + keys[0]*s.stride}, write, multi)
 }
 func (s *strideAny) unlock(keys []int, write, multi bool) {
-	s.anyLocker.unlock([]int{keys[0] * s.stride}, write, multi)
+	s.anyLocker.unlock([]int{s.base + keys[0]*s.stride}, write, multi)
 }
 
 func genConfig(t *rapid.T) Config {
 	c := Config{
 		Type:   rapid.SampledFrom([]string{"KeyLocker", "KeyLockerGrp", "KeyLockerGrpX", "TKeyLocker", "TKeyLocker", "TKeyLockerGrp", "TKeyLockerGrp", "TKeyLockerGrpX"}).Draw(t, "type"),
 		StrKey: rapid.IntRange(0, 3).Draw(t, "strkey") == 0,
-		Shards: rapid.SampledFrom([]uint64{1, 2, 3, 73}).Draw(t, "shards"),
+		Shards: rapid.SampledFrom([]uint64{1, 2, 3, 73, 7, 33, 37, 61, 64}).Draw(t, "shards"),
 		NKeys:  rapid.IntRange(2, 6).Draw(t, "nkeys"),
 	}
 	// sometimes many keys, so that multi-key lists get long (> 12 keys) and several of them share a shard
@@ -169,6 +170,8 @@ func genConfig(t *rapid.T) Config {
 	}
 	// stride 1: neighbours spread over the shards; stride == shards: all keys in one shard
 	c.Stride = rapid.SampledFrom([]int{1, 1, int(c.Shards), 5}).Draw(t, "stride")
+	// keys need not start at 0: with a base near the shard count the keys reach the highest shard indexes
+	c.Base = rapid.SampledFrom([]int{0, 0, 30, 57, 1000}).Draw(t, "base")
 	return c
 }
 
